@@ -26,7 +26,7 @@ CLAIMS = {
              'closed on [0,1), and user code only ever sees copies of the stored points; for histories '
              'with resumes, every renumbering of the shells is followed by a full checkpoint write, '
              'so points_<i> is never left next to a stale bound_<i>.',
-        ref='DESIGN.md sections 4 C01, 10.9-10.13, 10.16, rules M4 M5 L1 L2 L3 L4 A5 Q3 T8 M3 M6 F6 P4 P6 P8 P14 T9 I1', note=TRUST +
+        ref='DESIGN.md sections 4 C01, 10.9-10.13, 10.16, 10.17, rules M4 M5 L1 L2 L3 L4 A5 Q3 T8 M3 M6 F6 P4 P6 P8 P14 T9 I1', note=TRUST +
         ' contains() of each bound is numerically what it says (C07 leaf assumption).'),
     'C02': dict(
         technique='lockstep path analysis over per-shell records; dirty=>recompute post-dominance '
@@ -43,7 +43,7 @@ CLAIMS = {
              'x kept fraction, evidence term = sum_j L_j V_b/N, Kish size per shell and overall, '
              'per-sample weights that sum to the evidence term and are normalised by their own '
              'sum.  Floating-point evaluation of the formulas and eta are not decided.',
-        ref='DESIGN.md sections 4 C02, 10.9-10.11, 10.14, 10.16, rules L1 L1d T3 T8 Q3 A2 A6 L5 U1 A8 A9 P4 E I1 N3', note=TRUST),
+        ref='DESIGN.md sections 4 C02, 10.9-10.11, 10.14, 10.16, 10.17, rules L1 L1d T3 T8 Q3 A2 A6 L5 U1 A8 A9 P4 E I1 N3', note=TRUST),
     'C03': dict(
         technique='lockstep path analysis (same mask / index / source on parallel arrays), '
                   'ordered-map and batch-axis lints on the evaluation path, copy-provenance rule',
@@ -57,7 +57,7 @@ CLAIMS = {
              'transfer set and its consumed marks are rewritten by every checkpoint update and '
              'restored into the attributes they came from; a pool job fills and returns a private '
              'copy of the bound, never the caller\'s object (no proposal is handed out twice).',
-        ref='DESIGN.md sections 4 C03, 10.9-10.13, 10.16, rules L1-L5 L3b S1 F5 F7 A5 P4 P1 P2 P9 P12 M9 I1', note=TRUST +
+        ref='DESIGN.md sections 4 C03, 10.9-10.13, 10.16, 10.17, rules L1-L5 L3b S1 F5 F7 A5 P4 P1 P2 P9 P12 M9 I1', note=TRUST +
         ' The user likelihood is assumed pure.'),
     'C05': dict(
         technique='effect analysis over the resolved call graph vs. key tables extracted from '
@@ -77,7 +77,7 @@ CLAIMS = {
              'checkpoint written inside an iteration of run() is followed by the end-of-exploration '
              'decision before the next batch (a run resumed from any file state does what the '
              'uninterrupted run did next).  Bit-identity itself is not decided.',
-        ref='DESIGN.md section 4 C05, 10, 10.13, 10.15 and 10.16, rules P0 P1 P2 P4 P5 P6 P8 P9 P11 P12 P14 P15 K2 F3 F4 T10', note=TRUST +
+        ref='DESIGN.md section 4 C05, 10, 10.13, 10.15 and 10.16, 10.17, rules P0 P1 P2 P4 P5 P6 P8 P9 P11 P12 P14 P15 K2 F3 F4 T10', note=TRUST +
         ' h5py round-trips values exactly; sklearn training is deterministic given its seed.'),
     'C06': dict(
         technique='typestate analysis on per-function CFGs (atomic-replace protocol), path '
@@ -91,7 +91,7 @@ CLAIMS = {
              'by the function that wrote it (no adoption of left-overs), and an in-place update '
              'is only ever applied to a copy of a file this run wrote completely and rewrites '
              'everything that changed since (no mixture of two states through a stale layout).',
-        ref='DESIGN.md section 4 C06, 10.9 and 10.16, rules T2 P4 P6',
+        ref='DESIGN.md section 4 C06, 10.9 and 10.16, 10.17, rules T2 P4 P6',
         note=TRUST + ' POSIX rename atomicity; crash = process kill, no fsync obligation.'),
     'C15': dict(
         technique='CFG path rules (validate-before-mutate, dominating uniqueness guard), '
@@ -110,7 +110,7 @@ CLAIMS = {
              'constant; a range tuple is rejected unless it has two entries with low < high, and the '
              'array unit_to_physical fills is float64 whatever the dtype of the input.  The shape '
              'of scipy\'s quantile functions is not decided.',
-        ref='DESIGN.md section 4 C15, 10, 10.13-10.16, rules T1 T1b T7 R1 L1p K1 A1 A1c F1p D1 D2 D3 D4',
+        ref='DESIGN.md section 4 C15, 10, 10.13-10.16, 10.17, rules T1 T1b T7 R1 L1p K1 A1 A1c F1p D1 D2 D3 D4',
         note=TRUST),
 }
 
@@ -127,7 +127,7 @@ CLAIMS.update({
              'ellipsoid built from them through splits; caches are reset when members change; at '
              'the leaf, the ellipsoid sampler draws direction x u^(1/n) through the matrix whose '
              'inverse contains() applies.  Leaf floating-point geometry is assumed.',
-        ref='DESIGN.md sections 4 C07, 10.9-10.11, 10.16, rules M1 M2 M3 A4 M6 L1 L6 T9 V2 V3 F9', note=TRUST),
+        ref='DESIGN.md sections 4 C07, 10.9-10.11, 10.16, 10.17, rules M1 M2 M3 A4 M6 L1 L6 T9 V2 V3 F9', note=TRUST),
     'C08': dict(
         technique='sibling-agreement (serial vs pool branch) and def-use dependency rules',
         text='WEAK claim, structural necessary conditions only: the pool branch of '
@@ -140,7 +140,7 @@ CLAIMS.update({
              'the proposal region times (n_sample - n_reject)/n_sample and the ellipsoid volume is '
              'log|det M| + (n/2) log pi - lgamma(n/2+1) for the matrix M that contains() inverts.  Uniformity and volume calibration as '
              'distributional facts are NOT decided by static analysis.',
-        ref='DESIGN.md sections 4 C08, 10.9-10.13, 10.16, rules A3 T8 Q1 Q2 P4 M1 M9 K2 V2 I2 N3', note=TRUST),
+        ref='DESIGN.md sections 4 C08, 10.9-10.13, 10.16, 10.17, rules A3 T8 Q1 Q2 P4 M1 M9 K2 V2 I2 N3', note=TRUST),
     'C09': dict(
         technique='writer/reader/updater table extraction and comparison; definite-assignment '
                   'analysis of constructors against the observation interface read set',
@@ -158,7 +158,7 @@ CLAIMS.update({
              'exactly the indices 0..N-1 (range bounds evaluated, probed while-loops start at 0, '
              'advance by one and continue while the key exists); a class chosen by comparing a '
              'stored tag with a string is the class of that name.',
-        ref='DESIGN.md sections 4 C09, 10.9-10.13, 10.15, 10.16, rules P1-P5 P7 P7n P8-P13 G2 K2', note=TRUST +
+        ref='DESIGN.md sections 4 C09, 10.9-10.13, 10.15, 10.16, 10.17, rules P1-P5 P7 P7n P8-P13 G2 K2', note=TRUST +
         ' Exact array round-trip through HDF5 and the sklearn attribute sweep are trusted.'),
     'C10': dict(
         technique='who-may-call / who-may-write tables, CFG loop contract, def-use accounting',
@@ -172,7 +172,7 @@ CLAIMS.update({
              'and is the returned value; every evaluated point comes from a unit-cube restricted '
              'bound through row selections and a shift that is closed on [0,1); across resumes the '
              'budget is compared with a counter that every checkpoint update rewrites.',
-        ref='DESIGN.md sections 4 C10, 10.9-10.11, 10.14, 10.16, rules F6 N1 T5 T8 T3 M1 M3 M6 P4 I1', note=TRUST),
+        ref='DESIGN.md sections 4 C10, 10.9-10.11, 10.14, 10.16, 10.17, rules F6 N1 T5 T8 T3 M1 M3 M6 P4 I1', note=TRUST),
     'C11': dict(
         technique='effect (write/draw) summaries closed over the call graph; control-dependence '
                   'analysis of flag tests; rng provenance; nondeterminism lints with fixtures',
@@ -187,7 +187,7 @@ CLAIMS.update({
              'arithmetic (scalar and vectorised evaluation see the same coordinates); no parameter '
              'that may be its mutable default object is modified in place, no unlisted global '
              'write, no class-level mutable attribute.',
-        ref='DESIGN.md sections 4 C11, 10.9-10.13, 10.16, rules F1-F5 F7 F8 F9 F10 G1 G3 K2', note=TRUST +
+        ref='DESIGN.md sections 4 C11, 10.9-10.13, 10.16, 10.17, rules F1-F5 F7 F8 F9 F10 G1 G3 K2', note=TRUST +
         ' NumPy / SciPy / sklearn are deterministic given their seeds.'),
     'C12': dict(
         technique='control-dependence phase guards, who-may-write tables, extend-prefix lockstep '
@@ -202,7 +202,7 @@ CLAIMS.update({
              'incremental update and comes back from a checkpoint as the bool its setter accepts.  '
              'Known finding K1 (listed in known_findings.json): the discard argument of run() is '
              'ignored once exploration has ended.',
-        ref='DESIGN.md sections 4 C12, 10.9-10.14, 10.16 (known finding K1), rules T6 F6 L1 L3 T3 T4 A2 A6 P4 P9 P12 I1', note=TRUST),
+        ref='DESIGN.md sections 4 C12, 10.9-10.14, 10.16, 10.17 (known finding K1), rules T6 F6 L1 L3 T3 T4 A2 A6 P4 P9 P12 I1', note=TRUST),
     'C13': dict(
         technique='lockstep path analysis of the parallel per-ellipsoid records, '
                   'validate-before-mutate and post-dominance (cache reset) on CFGs',
@@ -218,7 +218,7 @@ CLAIMS.update({
              'package writes into an array it was handed (so the recorded construction points '
              'stay what they were); a union read back from a checkpoint carries every member of the '
              'record.',
-        ref='DESIGN.md sections 4 C13, 10.9-10.13, 10.16, rules L1 L1d L6 L0 T1 T9 S2 S3 F9 N3', note=TRUST),
+        ref='DESIGN.md sections 4 C13, 10.9-10.13, 10.16, 10.17, rules L1 L1d L6 L0 T1 T9 S2 S3 F9 N3', note=TRUST),
     'C14': dict(
         technique='lockstep rule on local view arrays; purity / parameter-guarded draw; '
                   'path-wise symbolic evaluation of the repeat counts',
@@ -245,7 +245,7 @@ CLAIMS.update({
              'x[0] - x[-1] + 1 both for distinct and for coincident coordinates (float modulo '
              'evaluated piecewise) and that the centre is x[argmax] + max/2 + 1/2 modulo 1 over '
              'that same vector.',
-        ref='DESIGN.md section 4 C16, 10.9 and 10.16, rules M6 M7 M8', note=TRUST +
+        ref='DESIGN.md section 4 C16, 10.9 and 10.16, 10.17, rules M6 M7 M8', note=TRUST +
         ' float a % 1 is in [0,1) for a >= 0 and in [0,1] when a may be negative.'),
 })
 
